@@ -587,7 +587,19 @@ Qed.
 Definition erase_local (x : ast) : ast :=
   mk_ast (epoch x) (release x) (pre x) (post x) (dev x) [].
 
-Lemma pre_type_rank w k : lookup w pre_names = Some k -> pre_type w = Z.of_N (kind_rank k + 1).
+(* The numbers returned by normalizePrereleaseType are only compared with each other
+   (comparePrereleases: a < b < rc), so the correspondence with the reference is stated on their
+   ORDER: every spelling of a kind gets the rank of the kind, and the ranks of the three kinds are
+   ordered as the reference's kind_rank.  Nothing depends on the literal values (1, 2, 3) nor on
+   the default (no marker accepted by the pattern reaches it). *)
+Definition kind_type (k : kind) : Z :=
+  pre_type (match k with Ka => $"a" | Kb => $"b" | Krc => $"rc" end).
+
+Lemma kind_type_order k k' :
+  Z.compare (kind_type k) (kind_type k') = N.compare (kind_rank k) (kind_rank k').
+Proof. destruct k; destruct k'; vm_compute; reflexivity. Qed.
+
+Lemma pre_type_rank w k : lookup w pre_names = Some k -> pre_type w = kind_type k.
 Proof.
   unfold pre_names. cbn [lookup].
   repeat match goal with |- context [beq w ?m] =>
@@ -609,8 +621,8 @@ Lemma pre_pair_cmp w k n w' k' n' :
   lex2 N.compare N.compare (kind_rank k, n) (kind_rank k', n').
 Proof.
   intros L L'. unfold lex2, cmp_on. cbn [fst snd].
-  rewrite (pre_type_rank w k L), (pre_type_rank w' k' L'), !N2Z.inj_compare.
-  destruct k; destruct k'; reflexivity.
+  rewrite (pre_type_rank w k L), (pre_type_rank w' k' L'), kind_type_order, !N2Z.inj_compare.
+  reflexivity.
 Qed.
 
 (* dev-only flag + pre-release comparison of the model = the reference's pre key *)
